@@ -593,7 +593,10 @@ def execute(case):
         # the reference delivery itself raising is checked by O2/O3 below only
         # when both agree; disagreement is a delivery dependence
         if ref[0] == out[0] and ref[1] == out[1]:
-            return _fail(res, "exception", "plain bytes delivery raises %s" % brief(ref[:3]))
+            # the library raises for these bytes however they are delivered: that is
+            # a totality question (C03), not one of encoding precedence or delivery
+            stats["probes"]["both_raise"] = stats["probes"].get("both_raise", 0) + 1
+            return res
         return _fail(res, "O1-exception", "bytes delivery %s, this delivery %s" % (brief(ref[:3]), brief(out[:3])))
     # O1
     if out[3] != ref[3]:
